@@ -110,6 +110,9 @@ def doc_scenarios(tier, seed):
     fine = {"type": "custom", "kw": {"dz": [0.1] * 12}, "layers": [[0.5, 0.1234, 0.2617, 0.4321, 300.0, 100], [0.7, 0.2046, 0.3551, 0.4879, 80.0, 100]]}
     for iw in ({"wc_type": "Pct", "value": [35, 65], "depth_layer": [1, 2]}, {"wc_type": "Pct", "method": "Depth", "depth_layer": [0.25, 1.0], "value": [70, 45]}):
         scs.append(S("Tomato", seed=1, soil_spec=fine, iwc=iw))
+    # compartments thinner than 5 cm that have to be thickened three times for a deep-rooting crop
+    scs.append(S("Maize", seed=1, soil_spec={"type": "SandyLoam", "kw": {"dz": [0.04] * 8}}))
+    scs.append(S("Wheat", seed=1, soil_spec={"type": "Loam", "kw": {"dz": [0.03] * 6 + [0.1] * 2}}))
     # layers declared only for the upper part of the compartment grid
     for crop in ("Wheat", "Maize", "Tef"):
         scs.append(S(crop, seed=1, soil_spec=L.LAYERED_SOILS["shallow_layers"], iwc=rnd.choice(L.iwc_variants(2))))
